@@ -12,7 +12,7 @@ def scratch_dir():
     return tempfile.mkdtemp(prefix="hcverif.", dir=base)
 
 
-def dev_unit(unit, keep=False, show=False):
+def dev_unit(unit, keep=False, show=False, verbose=False, only_fail=True):
     try:
         text, infos, log = assemble.assemble(unit)
     except assemble.AssembleError as e:
@@ -27,10 +27,15 @@ def dev_unit(unit, keep=False, show=False):
             for i, ln in enumerate(text.split("\n"), 1):
                 print("%5d %s" % (i, ln))
         res = verus.run(path, d)
+        tl = text.split("\n")
         for dg in res["diags"]:
-            if dg.kind == "noise":
+            if dg.kind == "noise" or dg.level not in ("error",):
                 continue
-            print("[%s] %s" % (dg.kind, dg.rendered.rstrip()))
+            if verbose or dg.kind == "other":
+                print("[%s] %s" % (dg.kind, dg.rendered.rstrip()))
+            else:
+                locs = ["%d: %s%s" % (l[0], tl[l[0] - 1].strip()[:150], (" <" + l[2] + ">") if l[2] else "") for l in dg.lines[:3]]
+                print("[%s] %s\n      %s" % (dg.kind, dg.message.split("\n")[0], "\n      ".join(locs)))
         if res["stderr_other"].strip():
             print(res["stderr_other"][-3000:])
         s = res["summary"]
@@ -38,8 +43,9 @@ def dev_unit(unit, keep=False, show=False):
             print("verification-results:", s.get("verification-results"))
         fs = res["funcs"]
         for k in sorted(fs):
-            print("  %-70s %6d ms %s" % (k, fs[k]["ms"], "ok" if fs[k]["success"] else "FAIL"))
-        print("wall %.1fs rc=%s rewrites=%s" % (res["wall_s"], res["rc"], log))
+            if not fs[k]["success"] or fs[k]["ms"] > 2000 or not only_fail:
+                print("  %-70s %6d ms %s" % (k, fs[k]["ms"], "ok" if fs[k]["success"] else "FAIL"))
+        print("wall %.1fs rc=%s" % (res["wall_s"], res["rc"]))
         if keep:
             shutil.copy(path, "/tmp/%s.rs" % unit)
             print("kept /tmp/%s.rs" % unit)
@@ -56,9 +62,11 @@ def main(argv):
     ap.add_argument("--keep", action="store_true")
     ap.add_argument("--show", action="store_true")
     ap.add_argument("--replay")
+    ap.add_argument("-v", action="store_true")
+    ap.add_argument("--all", action="store_true")
     a = ap.parse_args(argv)
     if a.unit:
-        return dev_unit(a.unit, a.keep, a.show)
+        return dev_unit(a.unit, a.keep, a.show, a.v, not a.all)
     from . import propcheck
     if a.replay:
         return propcheck.replay(a.replay)
